@@ -142,6 +142,23 @@ def run(chk: Check):
             impl_out[i] = (idx0, start, alpha, outs, cursors, phi)
             reqs[i] = f"rseq.many {f2h(start)} {idx0} {fl(alpha)} {len(sizes)} " + " ".join(map(str, sizes))
 
+    # the seed given to the constructor — by keyword, or positionally as (batch_size, random_state), the signature all samplers share —
+    # determines start index, offset and points
+    from black_it.search_space import SearchSpace
+    for _ in range(6 if chk.tier == "quick" else 60):
+        seed, bs, d = rng.randrange(10 ** 6), rng.randint(1, 5), rng.randint(1, 4)
+        sp = SearchSpace([[0.0] * d, [1.0] * d], [1e-5] * d, False)
+        for cls, nm in ((hm.HaltonSampler, "HaltonSampler"), (rm.RSequenceSampler, "RSequenceSampler")):
+            a, b, c = cls(batch_size=bs, random_state=seed), cls(bs, seed), cls(bs, random_state=seed)
+            outs = [x.sample_batch(bs, sp, np.zeros((0, d)), np.zeros(0)) for x in (a, b, c)]
+            chk.case(["ctor-seed", nm, seed, bs, d], True, {"sampler": nm, "seed": seed, "batch_size": bs, "dims": d})
+            chk.count("constructor_seed:keyword_vs_positional")
+            if not (np.array_equal(outs[0], outs[1]) and np.array_equal(outs[0], outs[2])) or int(a._sequence_index) != int(b._sequence_index):
+                chk.fail(f"{nm}({bs}, {seed}) (seed passed positionally) does not emit the sequence of {nm}(batch_size={bs}, random_state={seed}): the seed does not determine the sequence",
+                         {"case": {"kind": "ctor_seed", "sampler": nm, "seed": seed, "batch_size": bs, "dims": d}})
+            if int(b.max_deduplication_passes) != int(a.max_deduplication_passes):
+                chk.fail(f"{nm}({bs}, {seed}): the positional seed ended up in another option (max_deduplication_passes = {b.max_deduplication_passes})",
+                         {"case": {"kind": "ctor_seed", "sampler": nm, "seed": seed, "batch_size": bs, "dims": d}})
     answers = lean_run(reqs)
     calc = hm._CachedPrimesCalculator()
     order = list(range(1, 41)); rng.shuffle(order)
